@@ -12,6 +12,7 @@
 (*   StartOnly  C10: the override matters only below the 2nd frame, and     *)
 (*              yields exactly v at 0%                                      *)
 (*   OrderFree  C11: result depends on the bag of keyframes (distinct pos.) *)
+(*   DupNeutral a keyframe repeated directly after itself changes nothing    *)
 (***************************************************************************)
 EXTENDS Timeline, TLC
 
@@ -81,6 +82,19 @@ StartOnly ==
       /\ \A pos \in Grid :
            \/ KLt(pos[1] * PD, <<SecondPos(p) * pos[2], 1>>)   \* pos < second frame
            \/ ImplSeg(Sorted, p, de, pos, TRUE, <<I(77)>>) = ImplSeg(Sorted, p, de, pos, FALSE, NoOv)
+
+\* A keyframe added again directly after itself (n copies) takes no part in anything: same CSS meaning and the
+\* code path stays inside it, at every position.  Basis of the harness's large-count pass, which replays
+\* behaviours with one keyframe repeated 66 000 times (more than 2^16 frames of one property).
+DupAt(s, j, n) == SubSeq(s, 1, j) \o [i \in 1..n |-> s[j]] \o SubSeq(s, j + 1, Len(s))
+DupNeutral ==
+  \A j \in 1..Len(kfs), n \in {2} :
+    LET d == StableSort(DupAt(kfs, j, n)) IN
+    \A p \in Props, de \in DefEasings, pos \in Grid, useov \in BOOLEAN, ov \in OvChoices :
+      \* (a substituted start value replaces the FIRST 0% keyframe only, so copies at 0% are not neutral under it)
+      (kfs[j].pos > 0 \/ ~useov \/ ov = NoOv) =>
+        /\ DesignSeg(d, p, de, pos, useov, ov) = DesignSeg(Sorted, p, de, pos, useov, ov)
+        /\ ImplSeg(d, p, de, pos, useov, ov) \subseteq DesignSeg(Sorted, p, de, pos, useov, ov)
 
 AllDistinct == \A i, j \in 1..Len(kfs) : i # j => kfs[i].pos # kfs[j].pos
 \* C11: any permutation gives the same sorted list when positions are distinct,
